@@ -233,10 +233,13 @@ fn any_attr() -> AttributeOutline {
 /// The representation invariant of the Lexer at the entry of a state function whose requirement set
 /// is `req` (DESIGN §3.2), over a buffer of length n. `k` = number of bytes already consumed after
 /// the marked comment text end (comment end states).
-pub(crate) fn inv(l: &Lexer<StepSink>, req: u16, k: usize, n: usize) -> bool {
+pub(crate) fn inv(l: &Lexer<StepSink>, req: u16, k: usize, dist: isize, n: usize) -> bool {
     let ls = l.lexeme_start;
     let np = l.next_pos;
     if !(ls <= np && np <= n) {
+        return false;
+    }
+    if dist >= 0 && np - ls != dist as usize {
         return false;
     }
     if req & TPS != 0 && !(ls <= l.token_part_start && l.token_part_start <= np) {
@@ -275,9 +278,14 @@ pub(crate) fn inv(l: &Lexer<StepSink>, req: u16, k: usize, n: usize) -> bool {
                             }
                         }
                     }
-                } else if req & TPS != 0 && !(l.token_part_start == ls + 1 && l.token_part_start < np) {
-                    // tag name in progress starts right after '<'
-                    return false;
+                } else {
+                    // tag name in progress: starts right after '<', no attributes yet
+                    if req & TPS != 0 && !(l.token_part_start == ls + 1 && l.token_part_start < np) {
+                        return false;
+                    }
+                    if !attributes.is_empty() {
+                        return false;
+                    }
                 }
             }
             Some(TagTokenOutline::EndTag { name, .. }) => {
@@ -298,7 +306,7 @@ pub(crate) fn inv(l: &Lexer<StepSink>, req: u16, k: usize, n: usize) -> bool {
                     return false;
                 }
                 let unmarked = r.start == 0 && r.end == 0 && k == 0;
-                let marked = r.start == l.token_part_start && ls <= r.start && r.start <= r.end && r.end + k <= np;
+                let marked = r.start == l.token_part_start && ls <= r.start && r.start <= r.end && r.end <= np && np - r.end >= k;
                 if !(unmarked || marked) {
                     return false;
                 }
@@ -330,9 +338,12 @@ pub(crate) fn inv(l: &Lexer<StepSink>, req: u16, k: usize, n: usize) -> bool {
 }
 
 /// An arbitrary Lexer satisfying `inv(req, k, n)`; what `req` does not mention is arbitrary (stale).
-pub(crate) fn any_lexer(n: usize, req: u16, k: usize, end_tag: bool, pre_attrs: usize) -> Lexer<StepSink> {
+pub(crate) fn any_lexer(n: usize, req: u16, k: usize, dist: isize, end_tag: bool, pre_attrs: usize, fixed_pos: Option<usize>) -> Lexer<StepSink> {
     let mut l = Lexer::<StepSink>::new();
-    l.next_pos = kani::any();
+    l.next_pos = match fixed_pos {
+        Some(p) => p,
+        None => kani::any(),
+    };
     l.lexeme_start = kani::any();
     l.token_part_start = kani::any();
     l.is_last_input = kani::any();
@@ -374,8 +385,8 @@ pub(crate) fn any_lexer(n: usize, req: u16, k: usize, end_tag: bool, pre_attrs: 
         })));
     }
     // end-tag tokens carry no attribute requirements
-    let eff = if end_tag { req & !(ATTR | ATTRNAMED) } else { req };
-    kani::assume(inv(&l, eff, k, n));
+    let eff = eff_req_for(end_tag, req);
+    kani::assume(inv(&l, eff, k, dist, n));
     l
 }
 
@@ -418,6 +429,10 @@ pub(crate) trait Tables {
     fn state_id(l: &Lexer<StepSink>) -> u16;
     /// (requirement flags, comment-end offset k, has an appropriate-end-tag gate)
     fn info(sid: u16) -> (u16, usize, bool);
+    /// exact value of next_pos - lexeme_start at the state's entry when the DSL determines it, else -1
+    fn dist(sid: u16) -> isize;
+    /// the state (or a state it inlines) has look-ahead arms
+    fn has_lookahead(sid: u16) -> bool;
     fn is_succ(from: u16, to: u16) -> bool;
     /// the tag continues (attributes / self-closing) in these states
     fn is_tag_continuation(sid: u16) -> bool;
@@ -432,17 +447,34 @@ pub(crate) struct Step<const NB: usize> {
     pub sid: u16,
 }
 
-pub(crate) fn pre_step<T: Tables, const NB: usize>(sid: u16, end_tag: bool, pre_attrs: usize) -> Step<NB> {
+/// `rem` < 0: chunk length and cursor symbolic. `rem` >= 0 (reduction for states with deep #[inline]
+/// chains, DESIGN §3.5): the chunk has exactly NB bytes and exactly `rem` of them are still unread, so that
+/// every loop of the inlined chain unrolls concretely.
+pub(crate) fn pre_step<T: Tables, const NB: usize>(sid: u16, end_tag: bool, pre_attrs: usize, rem: isize) -> Step<NB> {
     let input: [u8; NB] = kani::any();
-    let n: usize = kani::any();
+    let n: usize = if rem >= 0 { NB } else { kani::any() };
     kani::assume(n <= NB);
     let (req, k, _) = T::info(sid);
-    let l = any_lexer(n, req, k, end_tag, pre_attrs);
+    let l = any_lexer(n, req, k, T::dist(sid), end_tag, pre_attrs, if rem >= 0 { Some(NB - rem as usize) } else { None });
     let pc: usize = kani::any();
     kani::assume(pc <= usize::MAX / 2);
     let pre = Pre { ls: l.lexeme_start, np: l.next_pos, pc, last_hash: l.last_start_tag_name_hash };
     let ctx = new_ctx(pc, kani::any());
     Step { input, n, l, ctx, pre, sid }
+}
+
+/// end tags carry no attributes: the attribute requirements (and the token part start, which in the
+/// attribute states refers to an attribute part) are vacuous for them
+pub(crate) fn eff_req_for(end_tag: bool, req: u16) -> u16 {
+    if end_tag && req & NAMED != 0 {
+        req & !(ATTR | ATTRNAMED | TPS)
+    } else {
+        req
+    }
+}
+
+fn eff_req(l: &Lexer<StepSink>, req: u16) -> u16 {
+    eff_req_for(matches!(tag_hash(l), Some((_, true))), req)
 }
 
 fn tag_hash(l: &Lexer<StepSink>) -> Option<(LocalNameHash, bool)> {
@@ -485,11 +517,8 @@ pub(crate) fn post_step<T: Tables, const NB: usize>(st: Step<NB>, r: StateResult
             assert!(nid != T::UNKNOWN, "[C15] a transition lands in a named state");
             assert!(T::is_succ(sid, nid), "[C15] the successor is one the state's DSL definition lists");
             let (nreq, nk, _) = T::info(nid);
-            let eff = match tag_hash(&l) {
-                Some((_, true)) => nreq & !(ATTR | ATTRNAMED),
-                _ => nreq,
-            };
-            assert!(inv(&l, eff, nk, n), "[C01,C14,C16] the successor state's representation invariant holds");
+            let eff = eff_req(&l, nreq);
+            assert!(inv(&l, eff, nk, T::dist(nid), n), "[C01,C14,C16] the successor state's representation invariant holds");
             if gate && T::is_tag_continuation(nid) {
                 match tag_hash(&l) {
                     Some((h, true)) => assert!(h == pre.last_hash, "[C03] only the appropriate end tag continues as a tag"),
@@ -508,16 +537,19 @@ pub(crate) fn post_step<T: Tables, const NB: usize>(st: Step<NB>, r: StateResult
                         assert!(last_end == n, "[C01] at end of input every byte has been handed to the sink");
                         out = OUT_EOF;
                     } else {
-                        assert!(l.lexeme_start == 0 && l.next_pos == n - consumed, "[C02,C14] cursor re-based by exactly the consumed byte count");
+                        assert!(l.lexeme_start == 0, "[C02,C14] the unfinished lexeme starts the carried-over bytes");
+                        if T::has_lookahead(sid) {
+                            // a break inside a look-ahead rewinds to the first byte of the sequence
+                            assert!(l.next_pos <= n - consumed && n - consumed - l.next_pos <= 7, "[C02,C09] cursor re-based; at most a look-ahead is re-read");
+                        } else {
+                            assert!(l.next_pos == n - consumed, "[C02,C14] cursor re-based by exactly the consumed byte count");
+                        }
                         let nid = T::state_id(&l);
                         if nid != T::UNKNOWN {
                             assert!(nid == sid || T::is_succ(sid, nid), "[C15] state after a break is the current or an inlined successor state");
                             let (nreq, nk, _) = T::info(nid);
-                            let eff = match tag_hash(&l) {
-                                Some((_, true)) => nreq & !(ATTR | ATTRNAMED),
-                                _ => nreq,
-                            };
-                            assert!(inv(&l, eff, nk, n - consumed), "[C02,C14,C16] the re-based state satisfies the representation invariant over the rest of the chunk");
+                            let eff = eff_req(&l, nreq);
+                            assert!(inv(&l, eff, nk, if nid == sid { T::dist(nid) } else { -1 }, n - consumed), "[C02,C14,C16] the re-based state satisfies the representation invariant over the rest of the chunk");
                         }
                         out = OUT_BREAK;
                     }
